@@ -32,9 +32,11 @@ def propagate_viability_from_node(node: AttackGraphNode) -> None:
     for child in node.children:
         original_value = child.is_viable
         if child.type == 'or':
-            child.is_viable = False
+            # Accumulate first: the child can be one of its own parents
+            is_viable = False
             for parent in child.parents:
-                child.is_viable = child.is_viable or parent.is_viable
+                is_viable = is_viable or parent.is_viable
+            child.is_viable = is_viable
         if child.type == 'and':
             child.is_viable = False
 
@@ -65,9 +67,11 @@ def propagate_necessity_from_node(node: AttackGraphNode) -> None:
         if child.type == 'or':
             child.is_necessary = False
         if child.type == 'and':
-            child.is_necessary = False
+            # Accumulate first: the child can be one of its own parents
+            is_necessary = False
             for parent in child.parents:
-                child.is_necessary = child.is_necessary or parent.is_necessary
+                is_necessary = is_necessary or parent.is_necessary
+            child.is_necessary = is_necessary
 
         # TODO: Update TTC for child attack step before if it is not necessary
         # before propagating it further.
